@@ -8,6 +8,14 @@ import (
 
 func replayOther(t *testing.T, env *vstat.Envelope, p string) {
 	switch env.Test {
+	case "TestC04Redis":
+		var c StressCase
+		if _, err := vstat.LoadReplay(p, &c); err != nil {
+			t.Fatalf("cannot decode %s: %v", p, err)
+		}
+		for i := 0; i < 30; i++ {
+			vstat.For("C04").Report(t, "TestReplay", c, runStress(c))
+		}
 	case "TestC01Stress":
 		var c StressCase
 		if _, err := vstat.LoadReplay(p, &c); err != nil {
